@@ -88,6 +88,11 @@ META["C10"] = dict(
     note=CODEC_NOTE + " Modelled rather than verified: copy/alias semantics of bytes.NewBuffer, binary.Read, make, binary.Write. Pairwise distinctness of the regions of different IEs is not proved (each is fresh w.r.t. everything that existed when it was created).",
     technique="Lean 4 proof (heap-instrumented interpreter, simulation/erasure theorem, freshness invariant) over regenerated tables + direct aliasing/mutation/determinism oracles on the real code")
 
+META["C19"] = dict(
+    text="Partial (level other): kernel-checked theorems that (1) in an interleaving semantics whose steps never write the shared store and write only their own thread's store, every schedule yields each thread's sequential result and the shared store is never changed; (2) on facts regenerated from every library package on this run, no function outside init assigns, takes the address of, or hands out a reference to a package-level variable, and neither unsafe nor cgo is imported. The Go memory model, the standard library and logrus are outside the model; the run-time half runs a generated op mix from 64 goroutines under the Go race detector each run and compares every result with the sequential run.",
+    note="Trusted: Lean kernel; the globals scan of tools/extract (conservative, syntactic); the Go race detector; the harness's concurrent driver. Schedules are sampled, not enumerated. A new package-level cache / lazily initialised table breaks obligation (2); the race run then searches for the racing pair.",
+    technique="Lean 4 proof (schedule-independence of read-only-shared threads + decide on regenerated global-variable facts) combined with a race-detector run of the real library (64 goroutines) as counterexample search")
+
 NOT_APPLICABLE = {
  "C01": "check not built yet in this round (Lean model + correspondence planned, see DESIGN.md section 4); not claimed until it runs",
  "C02": "check not built yet in this round (Lean model + correspondence planned, see DESIGN.md section 4); not claimed until it runs",
